@@ -1129,7 +1129,35 @@ func (ex *Exec) rangeIter(x Value, t types.Type) iter {
 		if x == nil {
 			return &mapIter{m: &Map{}}
 		}
-		return &mapIter{m: x, keys: slices.Clone(x.K), vals: slices.Clone(x.V)}
+		keys, vals := slices.Clone(x.K), slices.Clone(x.V)
+		// Go does not specify the iteration order of a map.  When the harness asks
+		// for it (zzsym.NondetMapOrder) every order of a map with 2..3 entries is
+		// explored, and the reversal and rotations of a longer one.
+		if on, _ := ex.side["nondetMapOrder"].(bool); on && len(keys) >= 2 {
+			n := len(keys)
+			var perms [][]int
+			switch n {
+			case 2:
+				perms = [][]int{{0, 1}, {1, 0}}
+			case 3:
+				perms = [][]int{{0, 1, 2}, {0, 2, 1}, {1, 0, 2}, {1, 2, 0}, {2, 0, 1}, {2, 1, 0}}
+			default:
+				id := make([]int, n)
+				rev := make([]int, n)
+				rot := make([]int, n)
+				for i := range id {
+					id[i], rev[i], rot[i] = i, n-1-i, (i+1)%n
+				}
+				perms = [][]int{id, rev, rot}
+			}
+			p := perms[ex.choose(len(perms))]
+			k2, v2 := make([]Value, n), make([]Value, n)
+			for i, j := range p {
+				k2[i], v2[i] = keys[j], vals[j]
+			}
+			keys, vals = k2, v2
+		}
+		return &mapIter{m: x, keys: keys, vals: vals}
 	case string:
 		return &strIter{s: x}
 	case SymStr:
